@@ -426,7 +426,10 @@ def reauth_after_fetch():
         {"name": "nothing", "password": "nothing-pw", "auth": obj(), "readonly": False, "admin": False},
     ]
     pw = {u["name"]: u["password"] for u in users}
-    for first, second in (("u0", "u1"), ("u0", "nothing"), ("u1", "u0"), ("root", "nothing"), (None, "u0"), ("u0", "u0")):
+    pw["u0!wrong"] = "not-the-password"
+    pw["nobody"] = "whatever"
+    for first, second in (("u0", "u1"), ("u0", "nothing"), ("u1", "u0"), ("root", "nothing"), (None, "u0"), ("u0", "u0"),
+                          ("u0", "u0!wrong"), ("u1", "nobody"), ("root", "u0!wrong")):
         for tr in ("raw", "ws"):
             st = [("connect", 0, "raw", "local6"), ("connect", 1, tr, "remote6"),
                   ("msg", 0, obj(method="authenticate", params=obj(user="root", password=pw["root"]), id=1)),
@@ -435,7 +438,7 @@ def reauth_after_fetch():
             if first:
                 st.append(("msg", 1, obj(method="authenticate", params=obj(user=first, password=pw[first]), id=10)))
             st += [("msg", 1, obj(method="fetch", params=obj(id="f"), id=11)),
-                   ("msg", 1, obj(method="authenticate", params=obj(user=second, password=pw[second]), id=12)),
+                   ("msg", 1, obj(method="authenticate", params=obj(user=second.split("!")[0], password=pw[second]), id=12)),
                    ("msg", 0, obj(method="change", params=obj(path="s0", value=2), id=4)),
                    ("msg", 0, obj(method="change", params=obj(path="s1", value=2), id=5)),
                    ("msg", 1, obj(method="get", params=obj(), id=13)),
